@@ -591,7 +591,10 @@ func c12(x *mon.Ctx) {
 				// whatever the options value remembers about "these bytes" must not outlive the change
 				w = prev.Clone()
 				o = combos[r.Intn(2)] // collateral on: the change is in what is fetched or in how it is judged
-				switch r.Intn(7) {
+				switch r.Intn(9) {
+				case 7, 8:
+					label = "again/unchanged" // the very same call once more (and a refused one stays refused)
+					o = combos[r.Intn(3)]
 				case 0:
 					w.MakeCRLs([]*big.Int{w.PKI.TcbSign.Cert.SerialNumber}, nil)
 					label = "again/root-crl-now-revokes-signer"
